@@ -3,7 +3,7 @@ from . import _hub
 
 CONFIG = dict(
     modules=["SigModel.Props.C07"],
-    theorems=[],
+    theorems=["SigModel.Hub.reachable_inv", "SigModel.Hub.C07_no_residue", "SigModel.Hub.C07_ended_in_no_room", "SigModel.Hub.C07_connections", "SigModel.Hub.C07_facts", "SigModel.Hub.C07_limit_respected", "SigModel.Hub.C07_free_slot_usable"],
     generated=["Hub"],
     harness=_hub.HARNESS,
     stats=_hub.stats,
@@ -15,7 +15,7 @@ CONFIG = dict(
 )
 
 MANIFEST = dict(
-    text="placeholder",
-    note="placeholder",
+    text="Lean 4 theorems over the hub model for every finite op sequence: any session id mentioned in any table (room members, in-call sets, room/user/session bus listeners, room-session maps, virtual-session table, expiry/anonymous/dial-out lists, per-backend counts, connections, parent/child links) belongs to a live session, so an ended session is referenced nowhere and a room it emptied is gone; the per-backend count never exceeds the configured limit and a free slot is usable. Tied to the code by regenerated facts (vtable cleanup, in-call membership guard) and the differential hub run with a full table digest at every step; the judge runs the residue and limit checks on the implementation's own tables.",
+    note='Hello is modelled as one atomic step after authentication (abandoned hellos and races for the last slot are exercised by the harness only through sequential histories; concurrent registration is not modelled). Limits lowered at run time below the current count (reload) are outside the model. gRPC cluster-wide counts, federation (federatedSessions) not modelled.',
     technique="Lean 4 proof (routing refinement over the hub model) + differential correspondence",
 )
